@@ -359,6 +359,11 @@ class Case:
                 if observe:
                     held = [stackscope.extract(ch.x) for _ in range(c["reps"])]
                     self.stats["extractions"] += c["reps"]
+                    if any(h.error is not None for h in held) or len({len(h.frames) for h in held}) != 1:
+                        # (an extraction that fails half-way is not an observation of the target at all: nothing that follows
+                        # can be compared)
+                        self.problems.append(f"chain of {len(spec['links'])} links: extraction reports {[repr(h.error)[:80] for h in held]} "
+                                             f"with {[len(h.frames) for h in held]} frames")
                     if len(held) >= 2:
                         self.stats["eq_checks"] += 1
                         if not all(norm_stack(h) == norm_stack(held[0]) for h in held[1:]):
